@@ -169,4 +169,16 @@ StView == st
 \* index safety under wrapping: whatever resolves, resolves inside the live prefix
 C03_EntityInBounds ==
     \A h \in HandleU : LET r == S!ResolveEntity(st, h[1], h[2]) IN r >= 0 => (r < st.len /\ st.dpos[r] = h[1])
+
+---------------------------------------------------------------------------
+(* Refinement: the slot map implements the abstract entity map (AbsMap.tla).  The live set is
+   READ OUT OF THE STORAGE (dense handle column), not taken from the ghost `live`; `issued`,
+   `rmc` and the tracked direct record are history and map to themselves. *)
+DenseSet == {<<st.dpos[i], st.dver[i]>> : i \in {j \in Pos : j < st.len}}
+A == INSTANCE AbsMap WITH Tokens <- HandleU, Reuse <- Wrapping,
+                          aLive <- DenseSet, aIssued <- issued, aRm <- rmc,
+                          aDir <- {[h |-> r.h, born |-> r.born] : r \in directs}
+Refines == A!ASpec
+\* the observable function of the abstract machine, as the code computes it
+AbsLookupAgrees == \A h \in HandleU : (S!ResolveEntity(st, h[1], h[2]) >= 0) <=> (h \in DenseSet)
 =============================================================================
